@@ -343,7 +343,7 @@ def run_check(prop, tier, seed, out=print):
     shutil.rmtree(os.path.join(WORK_DIR, prop), ignore_errors=True)
     ctxmp = multiprocessing.get_context(os.environ.get("PV_MP", "spawn"))
     workers = min(int(os.environ.get("PV_WORKERS", str(getattr(mod, "WORKERS", 4)))), nshards)
-    deadline = float(os.environ.get("PV_DEADLINE", str((getattr(mod, "DEADLINE", None) or {}).get(tier, 900 if tier == "quick" else 4 * 3600))))
+    deadline = float(os.environ.get("PV_DEADLINE", str((getattr(mod, "DEADLINE", None) or {}).get(tier, 1800 if tier == "quick" else 4 * 3600))))
     # the transpiler's parser library keeps every parsed module alive (about 0.5 MB per compilation): in the
     # thorough tier every shard gets a process of its own so that memory stays bounded by one shard
     kw = {"max_tasks_per_child": 1} if tier != "quick" else {}
